@@ -163,7 +163,7 @@ def run_one(task):
 
 def tasks_for(tier):
     if tier == 'quick':
-        return [(2, 2, 20000)]
+        return [(2, 2, 20000), (2, 3, 20000)]
     return [(2, 2, 20000), (3, 2, 200000), (2, 3, 100000)]
 
 
@@ -237,7 +237,7 @@ def run(ctx):
            'adaptive_stepping._rms', 'interp.linear_interp')
     ctx.stubs += ['solver.step -> fresh symbolic state per call', 'compute_error -> arbitrary e >= 1e-7 per trial (schedule exploration)',
                   'x ** a (a non-integer) -> fresh positive value with (x>1 <=> result>1), (x==1 <=> result==1)']
-    ctx.bounds = {'trials from ts[0]': '<=2 (quick) / <=3', 'output times': '2 (quick) / <=3', 'dt, dt_min, ts': 'arbitrary reals, dt >= dt_min > 0'}
+    ctx.bounds = {'trials from ts[0]': '<=2 (quick) / <=3', 'output times': '2 and 3 (quick) / <=3', 'dt, dt_min, ts': 'arbitrary reals, dt >= dt_min > 0'}
     ctx.assumptions += ['precondition dt >= dt_min > 0 (a first trial shorter than dt_min when the caller passes dt < dt_min is outside the claim)',
                         'termination: per-trial facts proved here (a rejection shrinks the controller step, never below dt_min; '
                         'an accepted step advances time by >= min(dt_min, remaining)) + the standard ranking argument (stated, not solved)']
@@ -283,51 +283,67 @@ def replay(data):
     if not (dtmin > 0 and dt >= dtmin and all(a < b for a, b in zip(ts[:-1], ts[1:]))):
         print('replay C14: counterexample violates the preconditions (not a reproduction)')
         return False
-    errs = [inp[k] for k in sorted((k for k in inp if k.startswith('err!')), key=lambda s: int(s.split('!')[1]))]
-    it = iter(errs + [0.5] * 10000)
-    real_err = adaptive_stepping.compute_error
-    adaptive_stepping.compute_error = lambda *a, **k: next(it)
-    log = []
+    errs0 = [inp[k] for k in sorted((k for k in inp if k.startswith('err!')), key=lambda s: int(s.split('!')[1]))]
 
-    class S(base_solver.BaseSDESolver):
-        strong_order = 1.0; weak_order = 1.0; sde_type = 'ito'; noise_types = ('diagonal',); levy_area_approximations = ('none',)
-        def __init__(self):
-            self.dt = dt; self.adaptive = True; self.dt_min = dtmin; self.rtol = 0; self.atol = 0
-        def step(self, t0, t1, y0, extra0):
-            log.append((float(t0), float(t1), float(y0), extra0))
-            return torch.tensor([[float(len(log))]], dtype=torch.float64), (len(log),)
-    bad = []
-    try:
-        ys, extra = S().integrate(torch.tensor([[0.0]], dtype=torch.float64), ts, (0,))
-        trials = [log[i:i + 3] for i in range(0, len(log), 3)]
-        cur_t, cur_y, cur_x = ts[0], 0.0, (0,)
-        for k, (full, h1, h2) in enumerate(trials):
-            a, b = full[0], full[1]
-            if full[3] != cur_x or h1[3] != cur_x: bad.append(f'trial {k} does not start from the current extra solver state: {full[3]} / {h1[3]} vs {cur_x}')
-            if full[2] != cur_y or h1[2] != cur_y: bad.append(f'trial {k} does not start from the current accepted state')
-            if h2[3] != (3 * k + 2,): bad.append(f'trial {k}: second half step does not continue the first')
-            if abs(a - cur_t) > 1e-12: bad.append(f'trial {k} starts at {a}, current time {cur_t}')
-            if not (ts[0] - 1e-12 <= a < b <= ts[-1] + 1e-12): bad.append(f'trial {k} [{a},{b}] outside horizon')
-            if b - a < dtmin - 1e-12 and abs(b - ts[-1]) > 1e-12: bad.append(f'trial {k} shorter than dt_min')
-            if abs(h1[1] - (a + b) / 2) > 1e-12 or abs(h2[0] - (a + b) / 2) > 1e-12: bad.append(f'trial {k} halves wrong')
-            e = (errs + [0.5] * 10000)[k]
-            if k + 1 < len(trials):
-                na, nb = trials[k + 1][0][0], trials[k + 1][0][1]
-                accepted = abs(na - b) < 1e-12
-                if accepted:
-                    if e > 1 and (nb - na) > dtmin + 1e-12: bad.append(f'trial {k} accepted with error {e} > 1 above dt_min')
-                    if trials[k + 1][0][2] != 3 * k + 3: bad.append(f'trial {k} accepted state is not the two-half-step one')
-                    cur_t, cur_y, cur_x = b, 3 * k + 3, (3 * k + 3,)
+    def drive(ts, dt, dtmin, errs):
+        it = iter(errs + [0.5] * 10000)
+        real_err = adaptive_stepping.compute_error
+        adaptive_stepping.compute_error = lambda *a, **k: next(it)
+        log = []
+
+        class S(base_solver.BaseSDESolver):
+            strong_order = 1.0; weak_order = 1.0; sde_type = 'ito'; noise_types = ('diagonal',); levy_area_approximations = ('none',)
+            def __init__(self):
+                self.dt = dt; self.adaptive = True; self.dt_min = dtmin; self.rtol = 0; self.atol = 0
+            def step(self, t0, t1, y0, extra0):
+                log.append((float(t0), float(t1), float(y0), extra0))
+                return torch.tensor([[float(len(log))]], dtype=torch.float64), (len(log),)
+        bad = []
+        try:
+            ys, extra = S().integrate(torch.tensor([[0.0]], dtype=torch.float64), ts, (0,))
+            trials = [log[i:i + 3] for i in range(0, len(log), 3)]
+            cur_t, cur_y, cur_x = ts[0], 0.0, (0,)
+            for k, (full, h1, h2) in enumerate(trials):
+                a, b = full[0], full[1]
+                if full[3] != cur_x or h1[3] != cur_x: bad.append(f'trial {k} does not start from the current extra solver state: {full[3]} / {h1[3]} vs {cur_x}')
+                if full[2] != cur_y or h1[2] != cur_y: bad.append(f'trial {k} does not start from the current accepted state')
+                if h2[3] != (3 * k + 2,): bad.append(f'trial {k}: second half step does not continue the first')
+                if abs(a - cur_t) > 1e-12: bad.append(f'trial {k} starts at {a}, current time {cur_t}')
+                if not (ts[0] - 1e-12 <= a < b <= ts[-1] + 1e-12): bad.append(f'trial {k} [{a},{b}] outside horizon')
+                if b - a < dtmin - 1e-12 and abs(b - ts[-1]) > 1e-12: bad.append(f'trial {k} shorter than dt_min')
+                if abs(h1[1] - (a + b) / 2) > 1e-12 or abs(h2[0] - (a + b) / 2) > 1e-12: bad.append(f'trial {k} halves wrong')
+                e = (errs + [0.5] * 10000)[k]
+                if k + 1 < len(trials):
+                    na, nb = trials[k + 1][0][0], trials[k + 1][0][1]
+                    accepted = abs(na - b) < 1e-12
+                    if accepted:
+                        if e > 1 and (nb - na) > dtmin + 1e-12: bad.append(f'trial {k} accepted with error {e} > 1 above dt_min')
+                        if trials[k + 1][0][2] != 3 * k + 3: bad.append(f'trial {k} accepted state is not the two-half-step one')
+                        cur_t, cur_y, cur_x = b, 3 * k + 3, (3 * k + 3,)
+                    else:
+                        if e <= 1: bad.append(f'trial {k} rejected with error {e} <= 1')
+                        if abs(na - a) > 1e-12: bad.append(f'trial {k} rejected but time moved')
+                        if (nb - na) > (b - a) + 1e-15: bad.append(f'trial {k} retried longer')
                 else:
-                    if e <= 1: bad.append(f'trial {k} rejected with error {e} <= 1')
-                    if abs(na - a) > 1e-12: bad.append(f'trial {k} rejected but time moved')
-                    if (nb - na) > (b - a) + 1e-15: bad.append(f'trial {k} retried longer')
-            else:
-                if abs(b - ts[-1]) > 1e-12: bad.append('did not end at ts[-1]')
-                if float(ys[-1]) != float(3 * k + 3): bad.append('final output is not the two-half-step state')
-    except Exception as e:
-        bad.append(f'crash {type(e).__name__}: {e}')
-    finally:
-        adaptive_stepping.compute_error = real_err
+                    if abs(b - ts[-1]) > 1e-12: bad.append('did not end at ts[-1]')
+                    if float(ys[-1]) != float(3 * k + 3): bad.append('final output is not the two-half-step state')
+        except Exception as e:
+            bad.append(f'crash {type(e).__name__}: {e}')
+        finally:
+            adaptive_stepping.compute_error = real_err
+        return bad
+
+    bad = drive(ts, dt, dtmin, errs0)
+    if not bad and nout >= 3:
+        # the symbolic counterexample fixes values of the uninterpreted power x**a that the real pow need not take: also drive a
+        # small family of schedules around it (every one of them satisfies the invariants on a correct loop)
+        import itertools
+        for x, dt_, dm_, es in itertools.product((0.52, 0.3, 0.77), (0.3, 0.45), (0.09, 0.2), ([0.5] * 6, [2.0, 0.5, 0.5, 2.0, 0.5, 0.5], [0.5, 3.0, 0.5, 0.5, 0.5, 0.5])):
+            tsx = [0.0, x, 1.0] + [1.0 + 0.5 * (k + 1) for k in range(nout - 3)]
+            bad = drive(tsx, dt_, dm_, list(es))
+            if bad:
+                bad = [f'schedule ts={tsx} dt={dt_} dt_min={dm_} errs={es}: ' + b for b in bad[:2]]
+                break
+
     print('replay C14:', bad or 'adaptive invariants hold on this schedule')
     return bool(bad)
